@@ -26,6 +26,42 @@ def gen_case(rng, k):
     return fs
 
 
+def corpus_cases(which):
+    """boundary cases run first: the op-code bound over whole hierarchies, and names re-declared
+    at a distance along the inheritance chain"""
+    out = []
+    def fs1(decls, big=False):
+        d = {"files": [{"path": "main.idl", "includes": [], "decls": decls}], "main": "main.idl", "idirs": []}
+        if big:
+            d["big"] = True
+        return d
+    def meths(prefix, n):
+        return [("method", "%s%d" % (prefix, i), [], False, None) for i in range(n)]
+    if which == "ops":
+        # 0x3FFF is the last op-code: 16384 methods fit, 16385 do not - in one interface or
+        # summed over a chain (any split)
+        for split in ([16384], [16385], [16384, 1], [16383, 1], [10000, 6384], [10000, 6385], [1, 16384], [8000, 8000, 384], [8000, 8000, 385]):
+            decls, prev = [], None
+            for lvl, n in enumerate(split):
+                decls.append(("iface", "IB%d" % lvl, prev, meths("m%d_" % lvl, n)))
+                prev = "IB%d" % lvl
+            out.append(fs1(decls, big=True))
+    # a name of a non-immediate ancestor declared again (method, error, constant), distance 2..4
+    for dist in (2, 3, 4):
+        for kind in ("method", "error", "const"):
+            def member(nm):
+                return {"method": ("method", nm, [], False, None), "error": ("error", nm), "const": ("const", "uint32", nm, "7")}[kind]
+            decls, prev = [], None
+            for lvl in range(dist + 1):
+                ms = [("method", "own%d" % lvl, [], False, None), ("error", "E_OWN%d" % lvl)]
+                if lvl == 0 or lvl == dist:
+                    ms.append(member("SHARED"))
+                decls.append(("iface", "IC%d" % lvl, prev, ms))
+                prev = "IC%d" % lvl
+            out.append(fs1(decls))
+    return out
+
+
 def top_ifaces(fs):
     main = [f for f in fs["files"] if f["path"] == fs["main"]][0]
     return [d[1] for d in main["decls"] if d[0] == "iface"]
@@ -188,6 +224,7 @@ def run(ctx):
             cases.append(rp["fileset"])
     else:
         rng = vlib.mkrng(seed, prop)
+        cases += corpus_cases(which)
         for k in range(n):
             cases.append(gen_case(rng, k))
     lines = []
@@ -213,15 +250,32 @@ def run(ctx):
         emitted = dict(ex.map(emit, range(len(cases))))
     defs, labels = [], {}
     exit_mismatch = []
+    big_checked = 0
     for k, fs in enumerate(cases):
         h = hres.get(str(k))
+        if fs.get("big"):
+            # thousands of methods: the model is not evaluated (its duplicate-name pass is quadratic);
+            # the outcome is compared with the bound of the property text (op-codes end at 0x3FFF,
+            # C07_too_many_rejected is the theorem) for the whole chain, through the real pipeline
+            # and every backend's exit status
+            split = [len(d[3]) for d in fs["files"][0]["decls"]]
+            want = sum(split) <= 16384
+            got = bool(h) and h.get("result") == "ok"
+            bins = [(lang, role, rc2) for (lang, role), (rc2, _, diag) in emitted[k][fs["main"]].items() if not (lang == "java" and rc2 != 0)]
+            big_checked += 1
+            if got != want or any((rc2 == 0) != want for _, _, rc2 in bins if _ != "java"):
+                res["failures"].append({"property": prop, "big_split": split, "harness": (h or {}).get("result"), "exit_codes": bins,
+                                        "how_to_build": "one file: interface IB0 with split[0] methods m0_<i>(), IB1 : IB0 with split[1] methods m1_<i>(), ...",
+                                        "what": "a chain of interfaces with %s methods (%d in total, limit 16384 = op-codes 0..0x3FFF) is %s" % (split, sum(split), "accepted" if got else "rejected")})
+            continue
         if h is None or "files" not in h:
             # rejected before the include pass finished: nothing to compare at the MIR level
             continue
         accepted = h["result"] == "ok"
         impl = "SL [SA 1; %s]" % h["mir"] if accepted else "SL [SA 0; SA %s]" % h["result"].split()[1]
         root = os.path.join(work, "cases", str(k))
-        tabs = scrape_tables(root, fs, emitted[k], which) if accepted else []
+        # (hierarchies with thousands of methods: outcome and MIR numbering only)
+        tabs = scrape_tables(root, fs, emitted[k], which) if accepted and not fs.get("big") else []
         labels[k] = [t[0] for t in tabs]
         # the driver's exit status must match the library-level outcome
         for (lang, role), (rc2, _, diag) in emitted[k][fs["main"]].items():
@@ -256,6 +310,8 @@ def run(ctx):
                                        "case": payload})
         if len(fl) > 2 and fl[2] == 0:
             res["failures"].append(dict(payload, what="numbering observed in the MIR violates the specification"))
+        if len(fl) > 4 and fl[4] == 0:
+            res["failures"].append(dict(payload, what="a name occurs twice in a flattened interface: it carries two different numbers"))
         if len(fl) > 3 and fl[3] == 0:
             res["failures"].append(dict(payload, what="a backend prints a different number than the MIR (%s)" % labels.get(k)))
     for k, lang, role, rc2 in exit_mismatch[:5]:
@@ -266,7 +322,9 @@ def run(ctx):
                        "tables_scraped": labels.get(k)})
     res["coverage"] = {
         "evaluations": len(results), "distinct_nontrivial": distinct,
-        "rule": "generated file sets (hierarchies of depth 0-7, members interleaved, ancestors in included files); "
+        "big_hierarchies_checked": big_checked,
+        "rule": "corpus: chains summing to 16384 / 16385 methods in every split (outcome vs the 0x3FFF bound), names of a non-immediate ancestor declared again at distance 2-4; "
+                "generated file sets (hierarchies of depth 0-7, members interleaved, ancestors in included files); "
                 "non-trivial = some main-file interface has an ancestor and >= 2 numbered members; distinct after replacing numerals",
         "samples": sample,
         "layers": {"L0_cases": len(results), "L1_backend_tables_per_case": 10 if which == "ops" else 4},
